@@ -55,9 +55,11 @@ def corpus (thorough : Bool) : List Case :=
     kf 104 "KF-setpattern-panic" "let x = {(y: 0, z: 2), (y: 0, z: 3)}; cond x { {(:y, :z), ...}: 2 * y }",
     kf 105 "KF-function-as-set" "//rel.union(\\x x)", kf 106 "KF-function-as-set" "(\\x x) count",
     kf 107 "KF-function-as-set" "1 <: //seq.concat", kf 108 "KF-relation-bucket" "{('a, b': 1), (a: 1, b: 2)}",
-    kf 109 "KF-grammar-parse" "//grammar.parse(3)", kf 112 "KF-huge-repeat" "//seq.repeat(9007199254740992, 'abc')",
+    kf 109 "KF-grammar-parse" "//grammar.parse(3)", good 55 "//seq.repeat(9007199254740992, 'abc')",
     good 51 "//seq.repeat(-1, [1, 2])", good 52 "{} rank (r: .x)", good 53 "({|x| (1), (2)} where .x > 5) rank (r: .x)",
-    good 54 "[] rank (r: .@)",
+    good 54 "[] rank (r: .@)", good 56 "<<1, 2, 3>> without (@: 3, @byte: 3)",
+    good 57 "(2\\<<1, 2, 3>>) without (@: 5, @byte: 1)", good 58 "//seq.has_suffix([1, , , , 2], [1, 2, 3])",
+    good 59 "//seq.trim_suffix([2, , , 3], [2, 3])", good 60 "let f = \\a 5; f(1, 2)?:0", good 61 "let d = {'a': 7}; d('a', 'c')?:0",
     -- nesting: depth 3000 must still work (slowly); the crash witness is the open finding
     mkCase "C10-corpus-200" "corpus/depth-3000" "KF-deep-nesting" "survive" (nest "(" ")" 3000 "1"),
     mkCase "C10-corpus-201" "corpus/depth-100000" "KF-deep-nesting" "survive" (nest "(" ")" 100000 "1") ] ++
@@ -114,7 +116,9 @@ def slice (k r : Nat) (xs : List Case) : List Case :=
 def gen (seed n : Nat) (thorough : Bool) : List Case := Id.run do
   let og := if thorough then opGrid else slice 3 seed opGrid
   let lg := if thorough then libGrid seed else slice 3 seed (libGrid seed)
-  let mut out := (og.reverse ++ lg.reverse ++ (corpus thorough).reverse)
+  -- the three small grids run in full on every run
+  let mut out := (callGrid.reverse ++ indexGrid.reverse ++ seqPairGrid.reverse ++ og.reverse ++ lg.reverse ++
+    (corpus thorough).reverse)
   for i in [0:n] do
     let (c, _) := (genCase i).run (seedOf seed (1000000 + i))
     out := c :: out
